@@ -252,6 +252,8 @@ def _revert_variable(var_type, value):
         return value
     elif var_type in datatypes.FLOAT_TYPES:
         return value
+    elif value < 0:
+        return f"-0x{-value:02X}"
     else:
         return f"0x{value:02X}"
 
